@@ -126,6 +126,7 @@ pub mod ber_spec {
     pub open spec fn int_acc(i: Seq<u8>) -> bool { starts_with_id(i, 0x02) && 1 <= spec_header(i)->Some_0.length <= 8 }
     pub open spec fn octets_acc(i: Seq<u8>) -> bool { starts_with_id(i, 0x04) }
     pub open spec fn seq_acc(i: Seq<u8>) -> bool { starts_with_id(i, 0x30) }
+    pub open spec fn null_acc(i: Seq<u8>) -> bool { starts_with_id(i, 0x05) && spec_header(i)->Some_0.length == 0 }
     // OBJECT IDENTIFIER whose contents are whole sub-identifiers (X.690 §8.19.2)
     pub open spec fn oid_acc(i: Seq<u8>) -> bool {
         starts_with_id(i, 0x06) && (spec_content(i).len() == 0 || spec_content(i).last() < 128)
